@@ -885,8 +885,8 @@ Proof.
   intros HP H. apply (PI_outs s' outs). destruct o; cbn [step] in H.
   - eapply on_new_worker_PI; eassumption.
   - destruct (find_proc _ w); [|discriminate]. eapply on_remove_worker_PI; eassumption.
-  - eapply R_PI; [eapply handle_submit_array_R; exact H | exact HP].
-  - destruct (bad_graph_rq _ _); [inversion H; subst; exact HP|]. eapply R_PI; [eapply handle_submit_graph_R; exact H | exact HP].
+  - destruct (bad_submit_lengths _ _); [inversion H; subst; exact HP|]. eapply R_PI; [eapply handle_submit_array_R; exact H | exact HP].
+  - destruct (bad_graph_rq _ _); [inversion H; subst; exact HP|]. destruct (dead_dep _ _ _); [inversion H; subst; exact HP|]. eapply R_PI; [eapply handle_submit_graph_R; exact H | exact HP].
   - eapply R_PI; [eapply handle_open_R; exact H | exact HP].
   - eapply R_PI; [eapply handle_close_R; exact H | exact HP].
   - eapply R_PI; [eapply handle_cancel_R; exact H | exact HP].
